@@ -124,6 +124,9 @@ def _run(ctx, e2e):
         if not (p_hi - p_lo > 1.0):
             continue
         WF.place_pressures(rng, cfg, p_lo, p_hi)
+        # the sampling intervals of the QHA layer must not thin out cij's tables: rows are T_MIN + k DT for every k < NT
+        cfg["qha"]["settings"]["DT_SAMPLE"] = cfg["qha"]["settings"]["DT"] * int(rng.choice([1, 2, 5]))
+        cfg["qha"]["settings"]["DELTA_P_SAMPLE"] = cfg["qha"]["settings"]["DELTA_P"] * int(rng.choice([1, 2, 3]))
         # ---- an output section exercising every keyword/alias of both bases ------------------------------------
         alias_round = i % 4
         out_cfg = {"pressure_base": [], "volume_base": []}
